@@ -416,9 +416,18 @@ def r_multi_order(ck: Checker) -> None:
     leaves = decision_tree(body, resolve=True)
     bad = None
     n = 0
+    for lf in leaves:  # positive pattern first: an explicit order is given, yet the table's own order is iterated
+        loops = [st for st in lf.stmts if isinstance(st, ast.For)]
+        if len(loops) == 1 and lf.assign.get(k_none(rp)) is False and norm(loops[0].iter) in (table, f"{table}.keys()", f"{table}.items()"):
+            bad = bad or f"rules given: iterates {norm(loops[0].iter)} (registration order) instead of the given order"
     for lf in leaves:
+        if bad:
+            break
         loops = [st for st in lf.stmts if isinstance(st, ast.For)]
         if len(loops) != 1 or loops[0].orelse or not isinstance(loops[0].target, ast.Name):
+            if len(loops) == 1 and k_none(rp) not in lf.assign and norm(loops[0].iter) in (f"{table}.items()", f"{table}.keys()", table):
+                bad = bad or f"iterates {norm(loops[0].iter)} (registration order) whatever order the caller gives"
+                continue
             raise Unsupported("MultiPatternMatcher.match: not a single loop over the rule names", f.node)
         lp = loops[0]
         for rules_none in (True, False):
@@ -461,6 +470,8 @@ def r_multi_order(ck: Checker) -> None:
             bad = bad or f"no rule matches: {lf.outcome} {lf.val()}"
     if n < 2 and not bad:
         raise Unsupported("MultiPatternMatcher.match: the rule order source was not decided for both cases", f.node)
+    if bad and "n" in dir() and False:
+        pass
     (ck.holds if not bad else ck.violation)("R-MULTI-ORDER", f, f.node, what, **({"evaluations": len(leaves)} if not bad else {"construct": f"MultiPatternMatcher.match: {bad}"}))
     g = ck.repo.func(PAT, "MultiPatternMatcher.__init__")
     loops = [st for st in g.node.body if isinstance(st, ast.For)]
